@@ -27,6 +27,8 @@
      of its probe sequence the tag of another constructed key (c03_full_fixed_fails_clean).  One arithmetic link is
      imported rather than re-proved: that this probe sequence covers every bucket (so the table is completely full) is
      HSProofs.tri_surj, proved for the same regenerated formulas under C18.
+   * a table that was used and clear()ed is again in the initial state of all these theorems
+     (c03_clear_reestablishes_initial_state, over C18's sequential model of clear());
    * release/acquire publication on the explicit RA machine (coq/WM/RA.v), with the orders computed from the
      regenerated site tables: tag / mirror-tag publication (release store vs. plain group load + acquire fence) and
      chained-table publication (next CAS vs. acquire loads, and the CAS loser), each for ALL executions of the machine;
@@ -35,7 +37,8 @@
 From Coq Require Import ZArith List Bool.
 Require Import Verif.Base.Atomics Verif.WM.RA Verif.WM.RALitmus Verif.HC.HCLitmus Verif.HC.HCLitmusProofs.
 Require Import Verif.Gen.Gen_hash_table Verif.Gen.Gen_hash_table_conc Verif.Conc.Machine Verif.HS.HSModel
-               Verif.HC.HCModel Verif.HC.HCProofs Verif.HC.HCLin.
+               Verif.HC.HCModel Verif.HC.HCProofs Verif.HC.HCLin Verif.HC.HCClear.
+Require Verif.HS.HSProofs.
 Import ListNotations.
 Local Open Scope Z_scope.
 
@@ -141,6 +144,16 @@ Theorem c03_full_fixed_fails_clean : forall hash cap g progs s t i o,
   exists t0, nth_error (tabs s) 0 = Some t0 /\ tab_passed hash t0 (okey o).
 Proof. exact hc_full_fails_clean. Qed.
 Print Assumptions c03_full_fixed_fails_clean.
+
+(* one more class of initial states: a table that was used and clear()ed.  clear() (sequential model and well-formedness
+   of C18, loop bound and mirror reset regenerated from the source) leaves every byte a probe can read - bucket bytes and
+   the 15 mirror bytes - EMPTY and every slot raw, exactly like the fresh table all theorems above start from *)
+Theorem c03_clear_reestablishes_initial_state : forall hash t, HSProofs.WF hash t ->
+  HSProofs.WF hash (tclear t) /\ bcount (tclear t) = bcount t /\ cnt (tclear t) = 0 /\
+  (forall p, 0 <= p < bcount t + 15 -> ctrl (tclear t) p = cctrl (fresh_ct (bcount t)) p) /\
+  (forall i, 0 <= i < bcount t -> vals (tclear t) i = cvals (fresh_ct (bcount t)) i).
+Proof. exact hc_clear_initial. Qed.
+Print Assumptions c03_clear_reestablishes_initial_state.
 
 (* ---- release/acquire publication, all executions of the RA machine, orders from the regenerated site tables ---- *)
 (* tag publication: producer = construct; control.store(tag, o_store); reader = group load; fence(o_fence); read slot *)
